@@ -8,6 +8,7 @@
   the real code by the harness monitor named next to it).  One clause is in that position: the canonical channel.
 -/
 import DymVerif.Lemmas.LCGood
+import DymVerif.Lemmas.LCNext
 namespace DymVerif.Props.C09
 open DymVerif DymVerif.LC
 
@@ -202,6 +203,32 @@ example : lookup sA.r2c 0 = some 0 ∧ lookup sA.c2r 0 = some 0 := by decide
 theorem agreement_inv (p : Core.Params) (ops : List Op) (hs : SafeRun (init p) ops) : AgreeInv (run (init p) ops) :=
   (run_good ops (init p) (init_good p) hs).agree
 
+/-- `SafeRun` is not vacuous: the history `opsA` (two rollapps, heights 1..3 of rollapp 0 posted, an honest client
+    designated canonical) satisfies it — at the designation every descriptor M-LC holds lies in the state info [1..3] -/
+theorem safeRun_witness : SafeRun (init P0) opsA := by
+  have hcov : ∀ cl, getClient (run (init P0) (opsA.take 8)) 0 = some cl → DescsCovered (run (init P0) (opsA.take 8)) cl.chain := by
+    intro cl hcl
+    have hch : ((getClient (run (init P0) (opsA.take 8)) 0).map (·.chain)) = some 0 := by decide
+    have hc0 : cl.chain = 0 := by simpa [hcl] using hch
+    rw [hc0]
+    intro h d hg
+    obtain ⟨hmem, hra, hh⟩ := getDesc_mem hg
+    have hdescs : (run (init P0) (opsA.take 8)).descs.map (·.h) = [1, 2, 3] := by decide
+    have hin : d.h ∈ [1, 2, 3] := by rw [← hdescs]; exact List.mem_map_of_mem hmem
+    have hst : ((Core.getRa (run (init P0) (opsA.take 8)).core 0).map (fun r => r.states.map (fun st => (st.start, st.last)))) = some [(1, 3)] := by decide
+    cases hr : Core.getRa (run (init P0) (opsA.take 8)).core 0 with
+    | none => simp [hr] at hst
+    | some r =>
+      simp only [hr, Option.map_some, Option.some.injEq] at hst
+      cases hs : r.states with
+      | nil => simp [hs] at hst
+      | cons st rest =>
+        simp only [hs, List.map_cons, List.cons.injEq, Prod.mk.injEq] at hst
+        refine ⟨r, st, rfl, by simp [hs], ?_, ?_⟩
+        · rw [hst.1.1]; simp only [List.mem_cons, List.mem_nil_iff, or_false] at hin; omega
+        · rw [hst.1.2]; simp only [List.mem_cons, List.mem_nil_iff, or_false] at hin; omega
+  refine ⟨trivial, trivial, trivial, trivial, trivial, trivial, trivial, trivial, hcov, trivial⟩
+
 /-- a header at height 3 of rollapp 0 with a wrong root, signed for the canonical client of rollapp 0 but naming
     sequencer a3 of rollapp 1 (which has no state at height 3) as proposer -/
 def hdrForeign : Hdr := { h := 3, cons := ⟨99, 30, 1⟩, propSig := 3, propData := 3, rev := 0, sole := true }
@@ -304,6 +331,63 @@ theorem coreOp_reject_unchanged (s : St) (o : Core.Op) (ds : List (Nat × Option
 theorem later_conflict_rejected_update {s : St} (hg : Good s) (m : Core.UpdMsg) (ds : List (Nat × Option Nat)) :
     ((coreOp s (.update m) ds).2 ≠ .ok → (coreOp s (.update m) ds).1 = s) ∧ AgreeInv (coreOp s (.update m) ds).1 :=
   ⟨coreOp_reject_unchanged s _ ds, (good_coreOp hg _ ds).2⟩
+
+-- ------------------------------------------------------------------------------------------------ the third field
+
+/- The property names three fields: state root, timestamp, next-sequencer hash.  `Agrees` / `AgreeInv` carry the first
+   two.  The next sequencer of a height is read from the state info as it is when the comparison is made
+   (`StateInfo.NextSequencerForHeight`), so the third field is a theorem about each of the three comparisons
+   (`Agrees3` = `Agrees` ∧ the consensus state's next-validators hash is that of the sequencer the state info
+   names for the next block): -/
+
+/-- **set_canonical_requires_agreement** (three fields) — an accepted designation: every consensus state of the client
+    inside a state info of the rollapp agrees with the descriptor in root, timestamp and next-sequencer hash -/
+theorem set_canonical_requires_agreement_next {p : Core.Params} {s s' : St} {c : Nat} (hs : Reachable p s)
+    (h : step s (.setCanonical c) = (s', .ok)) :
+    ∃ cl r, getClient s c = some cl ∧ Core.getRa s.core cl.chain = some r ∧
+      ∀ st ∈ r.states, ∀ ht cs, st.start ≤ ht → ht ≤ st.last → getCons cl ht = some cs →
+          ∃ d, getDesc s cl.chain ht = some d ∧ Agrees3 s st ht cs d := by
+  obtain ⟨ops, rfl⟩ := hs
+  have hchain := run_coreChain ops (init p) (init_coreChain p)
+  simp only [step] at h
+  rcases setCanonical_cases (run (init p) ops) c with ⟨_, e, he⟩ | ⟨cl, r, hcl, hr, _, _, hv, _, _⟩
+  · rw [show setCanonical (run (init p) ops) c = ((setCanonical (run (init p) ops) c).1, (setCanonical (run (init p) ops) c).2) from rfl, he] at h
+    simp at h
+  · exact ⟨cl, r, hcl, hr, validLoop_all_next (hchain r (Core.getRa_mem hr)) hv⟩
+
+/-- **later_conflict_rejected** (header after state update, three fields) — a header that names a registered sequencer,
+    for a height a state info `st` of that sequencer's rollapp covers, and that differs from the descriptor of the
+    height in root, timestamp or next-sequencer hash, is refused by the ante handler and nothing changes — on any
+    client, canonical or not. -/
+theorem later_conflict_rejected_header_next {s : St} {c : Nat} {hd : Hdr} {ibc : Bool} {q : Core.Seq} {ra : Core.Rollapp}
+    {i : Nat} {st : Core.SInfo} {d : Desc}
+    (hq : Core.getSeq s.core hd.propData = some q) (hr : Core.getRa s.core q.rollapp = some ra)
+    (hi : Core.findByHeight ra hd.h = some i) (hst : ra.states[i - 1]? = some st)
+    (hd' : getDesc s q.rollapp hd.h = some d) (hconf : ¬ Agrees3 s st hd.h hd.cons d) :
+    ∃ e, updateClient s c .top hd ibc = (s, .ante e) := by
+  cases hh : handleUpdate s c hd with
+  | mk x oe =>
+    cases oe with
+    | some e => exact ⟨e, updateClient_top_ante hh⟩
+    | none =>
+      exfalso
+      obtain ⟨st', d', hst', _, hd'', ha⟩ := handleUpdate_ok_next hh hq hr hi
+      rw [hst] at hst'; cases hst'
+      rw [hd'] at hd''; cases hd''
+      exact hconf ha
+
+/-- **later_conflict_rejected** (state update after header, three fields) — when the hook of an accepted state update
+    (`AfterUpdateState`, ordinary path) lets the new state info `st` through, every consensus state of the canonical
+    client at one of its heights agrees with the new descriptor in all three fields -/
+theorem later_conflict_rejected_update_next {s s4 : St} {ra c : Nat} {st : Core.SInfo} {cl : Client}
+    (h : validateNew s ra st c cl = (s4, none)) :
+    ∀ ht cs, st.start ≤ ht → ht ≤ st.last → getCons cl ht = some cs → ∃ d, getDesc s ra ht = some d ∧ Agrees3 s st ht cs d := by
+  obtain ⟨_, b, hb⟩ := validateNew_ok h
+  intro ht cs h1 h2 hc
+  exact validateStateInfo_agrees_next hb h1 h2 hc
+
+/-- a header for the posted height 3 with the right root and timestamp but naming another next validator set is refused -/
+example : (step sA (.updateClient 0 .top { h := 3, cons := ⟨4, 30, 2⟩, propSig := 0, propData := 0, rev := 0, sole := true } true)).2 = .ante .nextVal := by decide
 
 /-- concrete: after an optimistic header at height 4 (root 5), a state update posting root 77 for height 4
     is refused with the root-mismatch error; the honest one is accepted -/
